@@ -127,6 +127,11 @@ def seed_model(r):
             if e["dst"] not in t["bps"] and (e["assign"] is None or r.random() < 0.5):
                 a = r.choice(["gi = i + j", "gi = j", "gi = (forall (i : int[0,1]) i <= j) ? i : j"])
                 e["assign"] = a if e["assign"] is None else "%s, %s" % (e["assign"], a)
+    # at least two input/output synchronisations per document, so that the model-wide synchronisation-style check has something to lose
+    plain = [e for t in m["templates"] for e in t["edges"] if e["src"] not in t["bps"]]
+    if sum(1 for e in plain if e["sync"] is not None) < 2:
+        for e in [e for e in plain if e["sync"] is None][:2]:
+            e["sync"] = r.choice(["zc!", "zc?"])
     return m
 
 
